@@ -749,7 +749,18 @@ func ruleEffect2(c *Ctx) {
 			for _, in := range b.Instrs {
 				if call, ok := in.(*ssa.Call); ok && strings.HasPrefix(calleeQual(call.Call), "sync/atomic.") && !strings.HasSuffix(calleeQual(call.Call), ".init") {
 					atomics++
-					c.R.OK(ssaFuncName(f), "atomic operation "+calleeQual(call.Call), in.Pos(), "atomic read-modify-write")
+					nm := calleeQual(call.Call)
+					mono := strings.HasPrefix(nm, "sync/atomic.Load")
+					if strings.HasPrefix(nm, "sync/atomic.Add") && len(call.Call.Args) == 2 {
+						if k, ok := call.Call.Args[1].(*ssa.Const); ok && k.Value != nil && constant.Sign(k.Value) > 0 {
+							mono = true
+						}
+					}
+					if mono {
+						c.R.OK(ssaFuncName(f), "atomic operation "+nm, in.Pos(), "atomic and monotone (positive constant increment / load): values handed out are unique across goroutines")
+					} else {
+						c.R.Unk(ssaFuncName(f), "atomic operation "+nm, in.Pos(), "a process-global counter is stored/swapped/reset atomically: race-free, but another goroutine's reset between two draws breaks the uniqueness the users of the counter rely on (fresh type variables) — outcomes then depend on the interleaving")
+					}
 				}
 			}
 		}
